@@ -6,6 +6,7 @@ CONSTANTS
   KF_FindUnitRelock = TRUE
   MaxOps = 0
   ExportOps = 0
+  RedactNeedsTLSRecord = FALSE
   KeyFamily = "cover"
   DumpFile = ""
 INVARIANTS
